@@ -40,7 +40,7 @@ def strip_status(e):
 
 def multiset(rows_enc, held_enc):
     m = collections.Counter(strip_status(e) for e in rows_enc if e[0] != 'Floor')
-    if held_enc[0] != 'NoneGridObject':
+    if held_enc[0] not in ('NoneGridObject', 'Floor'):
         m[strip_status(held_enc)] += 1
     return m
 
